@@ -1923,7 +1923,7 @@ mod crypto {
         key.clone_from_slice(password_hash);
 
         let mut f = File::open(filepath)?;
-        let mut reader = CryptoReader::new(&mut f, key).unwrap();
+        let mut reader = CryptoReader::new(&mut f, key)?;
         Deserializer::<CryptoReader>::load::<T>(&mut reader, version)
     }
 }
